@@ -423,13 +423,13 @@ def machine_cadence(cr: CheckRun) -> None:
     tlc_expect_ok(res, "machine replay model")
     cr.add_tlc("machine-replay-model", res)
     items = [_script_from_machine_acts(v) for v in vals if len(v) >= 3]
-    items = items[:: max(1, len(items) // (1500 if quick else 20000))]
-    sims, res = vlib.sim_behaviours(SD, "MCMachine", "MCMachine_sim.cfg", 200 if quick else 3000, 40, cr.seed, "C13m", var="acts")
+    items = items[:: max(1, len(items) // (600 if quick else 20000))]
+    sims, res = vlib.sim_behaviours(SD, "MCMachine", "MCMachine_sim.cfg", 150 if quick else 3000, 40, cr.seed, "C13m", var="acts")
     if res.invariant_violated:
         raise MachineryError(f"Machine model violates {res.invariant_violated} (simulate)")
     items += [_script_from_machine_acts(v) for v in sims if len(v) >= 3]
     rnd = random.Random(cr.seed + 131)
-    items += [random_machine_script(rnd, 45) for _ in range(300 if quick else 5000)]
+    items += [random_machine_script(rnd, 45) for _ in range(250 if quick else 5000)]
     ntr, nev, bad = vlib.trace_campaign("C13", SD, "TraceMachineTimers", "TraceMachineTimers.cfg", items, _machine_drive, "machine-cadence")
     for b, meta in bad:
         d = b["detail"]
@@ -564,5 +564,27 @@ def selftest(seed: int) -> int:
     dropped = ev[:3] + ev[4:]  # drop the tick at c=3: the boundary is then consumed by the tick at c=4 which logged no firing
     if not vlib.tlc_judge_trace("C13", SD, "TraceTimers", "TraceTimers.cfg", dropped, "self2"):
         print("selftest: trace with dropped event accepted"); ok = False
+    # machine level: a recorded run of the real Rust machine is accepted; the same run with a target pushed one period too far,
+    # with a hidden status bit, or with a target moved off its phase is rejected by the clause that says so
+    sys.path.insert(0, str(vlib.VERIF / "harness" / "py"))
+    import machine_harness as mh
+    script = [{"ev": "TimerCfg", "pm": 3, "ps": 5}] + [{"ev": "Step", "ins": {"k": "NOP"}} for _ in range(4)] + \
+             [{"ev": "Step", "ins": {"k": "SETI", "v": 4}}, {"ev": "Step", "ins": {"k": "WAIT"}}] + [{"ev": "Step", "ins": {"k": "NOP"}} for _ in range(3)]
+    vh = Vh()
+    try:
+        mev = mh.run_script(mh.RustMachine(vh), script, 1)
+    finally:
+        vh.close()
+    if vlib.tlc_judge_trace("C13", SD, "TraceMachineTimers", "TraceMachineTimers.cfg", mev, "selfm0"):
+        print("selftest: pristine machine trace rejected"); ok = False
+    k = next(i for i, e in enumerate(mev) if e["ev"] == "Step" and e["post"]["nm"] > e["pre"]["nm"] > 0)
+    for name, mut, want in (("skip", lambda e: e["post"].__setitem__("nm", e["post"]["nm"] + 3), "NoBoundarySkipped"),
+                            ("hide", lambda e: e["post"].__setitem__("isr", e["post"]["isr"] & ~1), "FireSetsStatus"),
+                            ("phase", lambda e: e["post"].__setitem__("nm", e["post"]["nm"] + 1), "PhasePreserved")):
+        b2 = json.loads(json.dumps(mev))
+        mut(b2[k])
+        got = {b["clause"] for b in vlib.tlc_judge_trace("C13", SD, "TraceMachineTimers", "TraceMachineTimers.cfg", b2, "selfm-" + name)}
+        if want not in got:
+            print(f"selftest: machine trace mutation '{name}' not rejected by {want} (got {got})"); ok = False
     print("selftest C13:", "ok" if ok else "FAILED")
     return 0 if ok else 2
